@@ -143,7 +143,19 @@ def _rw_for_values(text):
     return re.subn(r'for x in iter\.values\(\) \{', 'while let Some(x) = iter.next() {', text)
 
 
+def _rw_chunk_count(text):
+    # RW20: `chunk<adaptor chain>.count()` -> `chunk_count(chunk)` (assumed: the number of survivors of the chunk)
+    return re.subn(r'\bchunk\s*\.[^;]*?\.count\(\)', 'chunk_count(chunk)', text, flags=re.S)
+
+
+def _rw_values_count(text):
+    # RW21: `iter.values()<adaptor chain>.count()` -> `values_count(iter)` (whole chunk-size-1 arm assumed, T6)
+    return re.subn(r'iter\.values\(\)[^;{}]*?\.count\(\)', 'values_count(iter)', text, flags=re.S)
+
+
 REWRITES = {
+    'RW20': ('chunk<chain>.count() -> chunk_count(chunk) (assumption T6: the number of survivors of the chunk)', _rw_chunk_count),
+    'RW21': ('iter.values()<chain>.count() -> values_count(iter) (chunk-size-1 arm of this kernel is a single std adaptor chain: assumed, T6)', _rw_values_count),
     'RW17': ('let x = chunk<chain>.reduce(reduce) -> let x = chunk_reduce(chunk) (assumption T6: Some iff the chunk has a survivor)', _rw_chunk_reduce),
     'RW18': ('iter.values()<chain>.reduce(reduce) -> values_reduce(iter) (chunk-size-1 arm of this kernel is a single std adaptor chain: assumed, T6)', _rw_values_reduce),
     'RW19': ('for x in iter.values() -> while let Some(x) = iter.next() (the values() wrapper forwards next())', _rw_for_values),
